@@ -22,8 +22,9 @@ RULES = {
     "R3": "set algebra: combine/concat union with |, invert ~, observed/unobserved = mask / ~mask, parent-identity guards dominate",
     "R4": "to_screen row-aligned; unique filter keys = sample_ids + all treatment columns; marks first occurrences on fresh zeros",
     "R5": "view discipline: every read of the parent's per-experiment data in ScreenSubset / Plate is subscripted by the view's selection; no question is delegated to the parent screen",
+    "R6": "the derived screen attributes this property's code relies on (size, unique_plate_ids) have their documented definitions in ScreenBase and every override",
 }
-MIN = {"R1": 12, "R2": 10, "R3": 8, "R4": 4, "R5": 15}
+MIN = {"R1": 12, "R2": 10, "R3": 8, "R4": 4, "R5": 15, "R6": 2}
 TRUSTED = ["numpy: boolean/integer-array indexing copies, basic slicing views", "np.unique(axis=0, return_index=True) returns first occurrences"]
 TECHNIQUE = "property-form comparison (provenance), freshness/borrowed-mutation abstract interpretation, boolean normal forms"
 LEVEL_TEXT = ("Decides view agreement, absence of aliasing mutations and the set-algebra operators from the source for all "
@@ -506,7 +507,11 @@ def r5(ctx):
     common.view_discipline(ctx, "R5")
 
 
-RULE_FUNCS = [r1, r2, r3, r4, r5]
+def r_derived(ctx):
+    common.derived_attributes(ctx, "R6", ['size', 'unique_plate_ids'])
+
+
+RULE_FUNCS = [r1, r2, r3, r4, r5, r_derived]
 
 
 def _rep(a, b):
